@@ -134,7 +134,12 @@ def run(spec: KaniSpec, harnesses: list[KaniHarness] | None = None, jobs: int = 
                     res[h.name].undecided_reason = f"timeout after {int(limit1)}s"
         elif not any(r.status != "undecided" or r.raw for r in res.values()):
             build_error = out[-6000:]
-        failed = [h for h in hs if res[h.name].status == "failed"]
+        def _real(h):
+            # failed checks a harness declares as tool artefacts do not call for a counterexample pass
+            ign = getattr(h, "ignore", None) or []
+            return any(not any(re.search(rx, c["desc"] + " @ " + c.get("fn", "")) for rx, _ in ign) for c in res[h.name].failed_checks) \
+                or not res[h.name].failed_checks
+        failed = [h for h in hs if res[h.name].status == "failed" and _real(h)]
         if playback and failed and not getattr(spec, "no_playback", False) and left() > 30:
             # cheapest failed harnesses first; one counterexample is enough when time is short
             failed.sort(key=lambda h: res[h.name].time_s or 0.0)
